@@ -12,7 +12,34 @@ RULE = ("TCP scenarios: acceptor + 1-3 clients over routes with access queues, a
         "non-trivial = at least 3 completions; distinct = distinct implementation traces")
 TRUSTED = ["model: coq/Model/Sim.v tcp_* / acc_* (hand-written from src/tcp_socket.cpp, src/acceptor.cpp, src/simulation.cpp internal_connect)"]
 ASSUMPTIONS = ["every route contains a queue; path MTU >= 1"]
-generate = tcommon.generate_flavour("loss")
+def gen_reuse(rng, k):
+    """connection 0 loses a middle segment and the writer closes at once (so the tail and the EOF sit in
+    the reader's reorder buffer); the reader closes the socket later and accepts connection 1 into the
+    SAME object; connection 1 is long enough to reach the stale sequence numbers"""
+    from .ncommon import Net, A1
+    r = rng
+    drops = [0] * r.choice([1, 2, 3]) + [1] + [0] * 6          # SYN passes, one payload segment dropped
+    net = Net(r, nnodes=2, lossy=drops, bw=r.choice([0, 800000]), lat=r.choice([0, 1000000]))
+    L = net.lines
+    n0 = r.choice([3, 4, 6])
+    n1 = r.choice([4, 6, 9])
+    L += ["M acc_new 1 1", "M tcp_open 1 1", "M tcp_bind 1 0 0 1337", "M listen 1 10", "M tcp_new 2 1", "M tcp_new 3 2", "M tcp_new 4 2",
+          "M accept 1 2 0 10", "M tcp_connect 3 0 %d 1337 11" % A1,
+          "H 11 tcp_write_all 3 %d %d 1048576 12" % (r.randrange(1000), n0 * r.choice([700, 1475])), "H 12 tcp_close 3",
+          "H 10 tcp_read_all 2 4096 13",
+          "H 10 expires_after 5 %d" % r.choice([1000000000, 3000000000]), "H 10 async_wait 5 14",
+          "H 14 accept 1 2 0 15",
+          "H 14 tcp_connect 4 0 %d 1337 16" % A1,
+          "H 16 tcp_write_all 4 %d %d 1048576 17" % (r.randrange(1000), n1 * r.choice([300, 1475])),
+          "H 17 expires_after 6 2000000000", "H 17 async_wait 6 18", "H 18 tcp_close 4",
+          "H 15 tcp_read_all 2 4096 19", "M run"]
+    return L
+
+
+def generate(rng, tier):
+    base = tcommon.generate_flavour("loss")(rng, tier)
+    n = 25 if tier == "quick" else 600
+    return base + [("reuse%d" % k, gen_reuse(rng, k)) for k in range(n)]
 classify = tcommon.classify
 nontrivial = tcommon.nontrivial
 
